@@ -116,6 +116,25 @@ def run(ctx):
                '' if ok else 'the length of a constant/constant slice is `%s`, which is negative when the stop lies before the start (s[3:1]): PostgreSQL rejects a negative '
                'substring length, Python returns the empty string' % norm(v), node=s, expected="['VALUE', max(stop_value - start_value, 0)]")
     ctx.floor('C25-TOTAL', len(consts), 1, 'constant lengths handed to SUBSTR')
+    # the same for every other implementation of STRING_SLICE in the builder hierarchy (SQLite's, and whatever a dialect adds): a constant length
+    # written as a difference of the two bounds, wherever it appears, is clamped -- SQLite's substr(s, p, negative) returns the characters *before* p
+    nd = 0
+    for cls_ in repo.subclasses(repo.cls('pony.orm.sqlbuilding', 'SQLBuilder')):
+        m_ = cls_.methods.get('STRING_SLICE')
+        if m_ is None or m_ is bs: continue
+        for lst in [x for x in ast.walk(m_.node) if isinstance(x, ast.List) and len(x.elts) == 2 and isinstance(x.elts[0], ast.Constant) and x.elts[0].value == 'VALUE']:
+            e = lst.elts[1]
+            if not any(isinstance(b_, ast.BinOp) and isinstance(b_.op, ast.Sub) and not isinstance(b_.right, ast.Constant) for b_ in ast.walk(e)): continue
+            nd += 1
+            def nonneg2(e):
+                if isinstance(e, ast.Call) and dotted(e.func) == 'max' and any(isinstance(a, ast.Constant) and a.value == 0 for a in e.args): return True
+                if isinstance(e, ast.IfExp): return nonneg2(e.body) and nonneg2(e.orelse)
+                return False
+            ok = nonneg2(e)
+            ctx.ob('C25-TOTAL.constant-length-clamped-at-zero', m_, lst, ok,
+                   '' if ok else '%s.STRING_SLICE hands `%s` to the database as a length: it is negative when the stop lies before the start (s[3:1]); SQLite\'s substr() then returns '
+                   'the characters before the start position instead of the empty string' % (cls_.name, norm(e)), node=lst)
+    ctx.count('C25-TOTAL: differences of bounds used as a constant length in dialect STRING_SLICE methods', nd)
     # ---------------------------------------------------------------- SQLITE
     sq = repo.fn('pony.orm.dbproviders.sqlite', 'SQLiteBuilder.STRING_SLICE')
     txt = [norm(s) for s in walk_no_nested(sq.node) if isinstance(s, ast.stmt)]
